@@ -19,7 +19,7 @@
 #[verifier::external_body] pub struct Duration { _opaque: () }
 #[verifier::external_body] pub struct PayloadHistory { _opaque: () }
 #[verifier::external_body] pub struct SharedHistory { _opaque: () }
-#[verifier::external_body] pub struct ReadGuard<'a> { _p: &'a SharedHistory }
+#[verifier::external_body] pub struct PayloadSnapshot { _opaque: () }
 #[verifier::external_body] pub struct NotifySender { _opaque: () }
 #[verifier::external_body] pub struct Summary { _opaque: () }
 #[verifier::external_body] pub struct LevelFilter { _opaque: () }
@@ -99,17 +99,28 @@ impl SharedHistory {
     { unimplemented!() }
 
     #[verifier::external_body]
-    pub fn read(&self) -> (g: ReadGuard<'_>) { unimplemented!() }
+    pub fn read(&self) -> (g: &PayloadHistory) { unimplemented!() }
 }
-impl<'a> Deref for ReadGuard<'a> {
-    type Target = PayloadHistory;
-    #[verifier::external_body]
-    fn deref(&self) -> (r: &PayloadHistory) { unimplemented!() }
-}
+// PayloadHistory accessors used through the read guard (guard modelled as a plain reference; contracts:
+// none needed here -- what they return is proved in units history / history_locks / schedule)
 impl PayloadHistory {
-    #[verifier::external_body] pub fn metrics(&self) -> Option<Arc<Metrics>> { unimplemented!() }
+    #[verifier::external_body] pub fn is_active(&self) -> bool { unimplemented!() }
+    #[verifier::external_body] pub fn current(&self) -> Option<Arc<PayloadSnapshot>> { unimplemented!() }
+    #[verifier::external_body] pub fn refresh_wait(&self) -> Duration { unimplemented!() }
+    #[verifier::external_body] pub fn update_wait(&self) -> Duration { unimplemented!() }
     #[verifier::external_body] pub fn serial(&self) -> Serial { unimplemented!() }
+    #[verifier::external_body] pub fn session(&self) -> u64 { unimplemented!() }
+    #[verifier::external_body] pub fn session_and_serial(&self) -> (u64, Serial) { unimplemented!() }
+    #[verifier::external_body] pub fn rtr_session(&self) -> u16 { unimplemented!() }
+    #[verifier::external_body] pub fn metrics(&self) -> Option<Arc<Metrics>> { unimplemented!() }
     #[verifier::external_body] pub fn last_update_duration(&self) -> Option<Duration> { unimplemented!() }
+}
+impl Duration {
+    #[verifier::external_body] pub fn as_secs(&self) -> u64 { unimplemented!() }
+}
+impl RunFailed {
+    #[verifier::external_body] pub fn should_retry(self) -> bool { unimplemented!() }
+    #[verifier::external_body] pub fn is_fatal(self) -> bool { unimplemented!() }
 }
 
 impl NotifySender {
